@@ -120,6 +120,23 @@ def main():
             "copy.deepcopy(sampler.state)": lambda: __import__("copy").deepcopy(done.state),
             "Sampler construction with random_state=None": lambda: mk(None, output_dir=tmp),
         }
+        # operations that end with an exception (the caller's error state turns an underflow into FloatingPointError): the stream
+        # still depends on the seed in force before them
+        rb = np.random.RandomState(4)
+        bimodal = np.vstack([0.2 + 0.01 * rb.standard_normal((200, 2)), 0.8 + 0.01 * rb.standard_normal((200, 2))])
+        bw = rb.rand(400)
+
+        def raising(fn):
+            def op():
+                try:
+                    with np.errstate(under="raise", over="raise"):
+                        fn()
+                except (FloatingPointError, Warning, ValueError, np.linalg.LinAlgError):
+                    pass
+            return op
+        ops["HierarchicalGaussianMixture.fit under np.errstate(under='raise') (raises or not)"] = raising(lambda: HierarchicalGaussianMixture(normalize=True).fit(bimodal, bw))
+        ops["GaussianMixture(random_state=7).fit under np.errstate(under='raise') (raises or not)"] = raising(lambda: GaussianMixture(2, random_state=7).fit(100.0 * bimodal, bw))
+        ops["HierarchicalGaussianMixture.fit (unnormalised) under np.errstate(under='raise') (raises or not)"] = raising(lambda: HierarchicalGaussianMixture().fit(bimodal))
         for name, op in ops.items():
             try:
                 a = after(op)
@@ -145,7 +162,29 @@ def main():
                 extra = " (the first resumed batch replays the draws of batch 1)" if b3 is not None and b1.shape == b3.shape and np.array_equal(b1, b3) else ""
                 return {"reproduced": True, "detail": "a seeded run resumed from its own checkpoint does not reproduce the uninterrupted run" + extra,
                         "input": {"probe": "resume", "clustering": clustering}}
-        return {"reproduced": False, "detail": "all RNG probes passed", "tried": 3 + len(ops) + 2}
+        # (3b) a short run, its final state saved explicitly and through <label>_final.state, resumed to a larger target: the same as
+        # one uninterrupted run to that target (the checkpoint written between iterations holds the live stream)
+        for how in ("save_state", "final-file"):
+            d1, d2, d3 = (os.path.join(tmp, f"{how}_{k}") for k in "abc")
+            s1 = mk(13, output_dir=d1)
+            s1.run(n_total=64, progress=False, save_every=(1 if how == "final-file" else None))
+            path = os.path.join(d1, "explicit.state")
+            if how == "save_state":
+                s1.save_state(path)
+            else:
+                cand = [f for f in os.listdir(d1) if f.endswith("final.state")]
+                if not cand:
+                    continue
+                path = os.path.join(d1, cand[0])
+            s2 = mk(13, output_dir=d2)
+            s2.run(n_total=400, progress=False, resume_state_path=path)
+            s3 = mk(13, output_dir=d3)
+            s3.run(n_total=400, progress=False)
+            a, b = s2.state.get_history("u", flat=True), s3.state.get_history("u", flat=True)
+            if a.shape != b.shape or not np.array_equal(a, b) or s2.evidence()[0] != s3.evidence()[0]:
+                return {"reproduced": True, "detail": f"a run to n_total=64 whose final state ({how}) is resumed to n_total=400 differs from one uninterrupted run to 400: "
+                        "the checkpoint written between iterations does not hold the live random stream", "input": {"probe": "resume-from-final", "how": how}}
+        return {"reproduced": False, "detail": "all RNG probes passed", "tried": 3 + len(ops) + 4}
     finally:
         shutil.rmtree(tmp, ignore_errors=True)
 
